@@ -238,7 +238,7 @@ def fixed_cases() -> list:
                                    dict(group="charge_measurement", name="ws", actions=[w("signal", "float16", [4 + 9 * i for i in range(n)])]),
                                    dict(group="readout_electronics", name="wi", actions=[w("image", dt, [big + 7 * i for i in range(n)])]),
                                    L()]))
-    # uint64 images above 2^53 (the float64 round trip of the merge)
+    # uint64 images above 2^53 (round 1: altered by the float64 round trip of xr.merge; exact since the steps are concatenated)
     cs.append(dict(rows=1, cols=1, start=0, times=[8, 16], nondestr=False, hier=False, debug=False,
                    models=[dict(group="readout_electronics", name="wi", actions=[w("image", "uint64", [2 ** 53 + 1, 7])]), L()]))
     cs.append(dict(rows=1, cols=1, start=0, times=[8], nondestr=False, hier=False, debug=False,
